@@ -97,3 +97,9 @@ func init() {
 		propertyMeta[k] = m
 	}
 }
+
+func init() {
+	m := propertyMeta["C01"]
+	m.Bounds = append(m.Bounds, "C01_NFTTransferWideNonce, C01_MultiTransferWideNonce: send step with a nonce argument of 8 and 9 arbitrary bytes (one item, no attached call)")
+	propertyMeta["C01"] = m
+}
